@@ -77,6 +77,7 @@ pub struct Tree {
     pub hostile: bool,
     pub has_dotdot: bool,
     pub depth2: bool,
+    pub conditional: bool,
 }
 
 pub fn gen_tree(t: &mut Tape) -> Tree {
@@ -89,6 +90,7 @@ pub fn gen_tree(t: &mut Tape) -> Tree {
     let mut files: HashMap<String, SrcFile> = HashMap::new();
     let mut hostile = false;
     let mut has_dotdot = false;
+    let mut conditional = false;
     for (i, name) in order.iter().enumerate() {
         let ne = t.urange(1, 4);
         let mut entries = Vec::new();
@@ -123,14 +125,36 @@ pub fn gen_tree(t: &mut Tape) -> Tree {
                 entries.push(Entry::Include(p));
             }
         }
-        files.insert(name.clone(), SrcFile { once: t.chance(1, 4), entries });
+        // v4: one file in four puts a run of its entries into the taken arm of a conditional block (constant
+        // condition), with markers / an inclusion in the arm that is not taken; files may then hold inclusions ONLY
+        // inside arms. (A #once file reached from inside a block is an error: see the model.)
+        if crate::engine::gen_version() >= 4 && t.chance(1, 4) {
+            let a = t.below(entries.len());
+            let b = a + 1 + t.below(entries.len() - a);
+            let taken: Vec<Entry> = entries.drain(a..b).collect();
+            let mut dead = Vec::new();
+            for _ in 0..t.draw(3) {
+                if t.chance(1, 3) {
+                    let target = (i + 1 + t.below(n - i)).min(n - 1);
+                    dead.push(Entry::Include(spell(t, name, &order[target])));
+                } else {
+                    dead.push(Entry::Marker(0xee));
+                }
+            }
+            let form = t.draw(4) as u8;
+            let nested = t.chance(1, 5);
+            let c = Entry::Cond { taken, dead, form };
+            entries.insert(a, if nested { Entry::Cond { taken: vec![c], dead: vec![Entry::Marker(0xed)], form: t.draw(4) as u8 } } else { c });
+            conditional = true;
+        }
+        files.insert(name.clone(), SrcFile { once: t.chance(1, if conditional { 8 } else { 4 }), entries });
     }
     // the one library file that may be named (rules only, no output)
     files.insert(STD_OK.to_string(), SrcFile::default());
     let root = order[0].clone();
     // inclusion depth >= 2 ?
     let depth2 = order.len() >= 3;
-    Tree { files, order, root, hostile, has_dotdot, depth2 }
+    Tree { files, order, root, hostile, has_dotdot, depth2, conditional }
 }
 
 fn tree_json(tr: &Tree) -> serde_json::Value {
@@ -477,6 +501,9 @@ impl Property for C14 {
             Err(e) => format!("model:reject:{}", e.split(':').last().unwrap_or("").trim().split(' ').take(3).collect::<Vec<_>>().join("-")),
         });
         ctx.nontrivial = (tr.has_dotdot && tr.depth2) || tr.hostile;
+        if tr.conditional {
+            ctx.label("inclusion-inside-conditional-block");
+        }
         // in-memory server
         let mut fs = MemFs::new();
         for n in &tr.order {
